@@ -114,7 +114,12 @@ func (s *State) H(name string, so *Sort) *Term {
 	return t
 }
 
+var touchLog *map[string]bool
+
 func (s *State) setH(name string, t *Term) {
+	if touchLog != nil {
+		(*touchLog)[name] = true
+	}
 	if _, ok := heapSorts[name]; !ok {
 		heapSorts[name] = t.Sort
 		heapNames = append(heapNames, name)
